@@ -72,7 +72,8 @@ def PLabel.read : PLabel → Name
 
 /-- what follows the leading word -/
 inductive PBody
-  | none                                            -- nothing (or only a `# comment`)
+  | none                                            -- nothing
+  | cmt                                             -- only a comment: `# c`
   | dot                                             -- `.`
   | hdr (prev : Bool) (h : Nat)                     -- `id <h> .` / `prev <h> .`
   | pfx                                             -- `ex: <http://…> .`  (PA / PD rows)
@@ -101,15 +102,23 @@ inductive LineRes
 /-- `add_or_remove_triple_or_quad` after the code was eaten (`rest` = what `lstrip` left of the word) -/
 def readQuadRow (op : POp) (rest : List Char) : PBody → LineRes
   | .none => if rest.isEmpty then .skip else .err .parseError          -- `if not self.line or startswith("#"): return`
+  | .cmt => if rest.isEmpty then .skip else .err .parseError
   | .quad s p o g => if rest.isEmpty then .row (op, ((s.read, p, o.read), g.read)) else .err .parseError
   | _ => .err .parseError                                             -- "Subject must be uriref or nodeID"
 
-/-- `add_prefix` / `delete_prefix`: `prefix, ns, _ = line.split(" ")` — three chunks or `ValueError`;
-    no effect on the quads -/
-def readPrefixRow (rest : List Char) : PBody → LineRes
-  | .pfx => if rest.isEmpty then .skip else .err .valueError
-  | .hdr _ _ => if rest.isEmpty then .skip else .err .valueError       -- `id <h> .` also splits in three
-  | _ => .err .valueError
+/-- number of blank-separated chunks of a body (a quad row has at least four) -/
+def bodyChunks : PBody → Nat
+  | .none => 0
+  | .cmt => 2
+  | .dot => 1
+  | .hdr _ _ => 3
+  | .pfx => 3
+  | .quad _ _ _ _ => 4
+
+/-- `add_prefix` / `delete_prefix`: `prefix, ns, _ = line.split(" ")` — exactly three chunks or `ValueError`
+    (what `lstrip` left of the word counts as a chunk; `"".split(" ")` is one chunk); no effect on the quads -/
+def readPrefixRow (rest : List Char) (b : PBody) : LineRes :=
+  if (if rest.isEmpty then 0 else 1) + bodyChunks b = 3 then .skip else .err .valueError
 
 /-- `parsepatch` -/
 def parseLine : PLine → LineRes
